@@ -251,6 +251,53 @@ def has_pad(orig_js, ser_js):
     return tgt_end and len(ser_js) > 0 and ser_js[-1] == ins("core.SetInstruction", reg(C, 15), imm(1337))
 
 
+def _top_regs(j):
+    return {tuple(o["r"]) for o in j["o"] if "r" in o}
+
+
+def _is_gate_json(j):
+    c = HC.class_by_name(j["c"])
+    return issubclass(c, (core.SingleQubitInstruction, core.RotationInstruction, core.TwoQubitInstruction))
+
+
+def static_scratch_check(js):
+    """Model-free static oracle: the register the pass borrows for the electron (the `set Qk 0` it
+    emits in front of `# begin SWAP`; found in a debug=True transpilation, where the marker makes the
+    emitted `set` unmistakable) must not be mentioned by the source program at or before that gate -
+    whatever kind of instruction mentioned it (set, load, add, meas, qalloc ...). Returns None or a
+    description."""
+    t = real_transpile(js, debug=True)
+    if "err" in t:
+        return None
+    out = t["ok"]
+    nongate_pos = [k for k, j in enumerate(js) if not _is_gate_json(j)]
+    copied = 0
+    for k, j in enumerate(out):
+        if j["c"].startswith(DEBUG_PREFIX) or j["c"].startswith("nv."):
+            continue
+        is_scratch = (j["c"] == "core.SetInstruction" and k + 1 < len(out)
+                      and out[k + 1]["c"] == DEBUG_PREFIX + "begin SWAP")
+        if not is_scratch:
+            copied += 1
+            continue
+        # source instructions that certainly precede (or are) the gate being expanded: everything up to
+        # the first gate after the `copied`-th non-gate instruction
+        start = nongate_pos[copied - 1] + 1 if copied > 0 else 0
+        end = start
+        while end < len(js) and not _is_gate_json(js[end]):
+            end += 1
+        prefix = js[:min(end + 1, len(js))]
+        r = tuple(j["o"][0]["r"])
+        named = set()
+        for x in prefix:
+            named |= _top_regs(x)
+        if r in named:
+            return {"what": "the register borrowed for the electron is already mentioned by the program",
+                    "stage": "static-scratch", "register": list(r), "output_index": k,
+                    "source_prefix_length": len(prefix)}
+    return None
+
+
 def oracle_compare(subs_js, nq, script, state, debug=False, given=None):
     """Original (vanilla semantics) vs transpiled-and-serialised (NV semantics).
     Returns None when they agree, else a description. Programs on which the ORIGINAL faults are
@@ -290,6 +337,11 @@ def oracle_compare(subs_js, nq, script, state, debug=False, given=None):
     if not states_equal(a["state"], b["state"]):
         return {"what": "final quantum state differs (beyond a global phase)", "stage": "state",
                 "overlap": float(abs(np.vdot(a["state"], b["state"])))}
+    if given is None:
+        for js in subs_js:
+            sc = static_scratch_check(js)
+            if sc is not None:
+                return sc
     return None
 
 
@@ -502,7 +554,11 @@ class ProgGen:
             kinds += ["if", "if", "ifelse", "loop", "tgt-gate", "tgt-gate", "tgt-gate"]
         if depth == 2 and self.nq >= 3 and not self.in_realloc:
             kinds += ["realloc", "realloc"]
+            if self.loads:
+                kinds += ["nonset-live", "nonset-live", "nonset-live"]
         k = rng.choice(kinds)
+        if k == "nonset-live":
+            return self.nonset_written_live()
         if k == "tgt-gate":
             return self.gate_as_target(depth)
         if k == "realloc":
@@ -655,6 +711,57 @@ class ProgGen:
             self.emit("core.MeasInstruction", reg(Q, k), reg(M, rng.randrange(3)))
         self.emit("core.QFreeInstruction", reg(Q, k))
         self.features.add("free-then-realloc-same-register")
+        self.in_realloc = False
+
+    def nonset_written_live(self):
+        """A Q register written by a NON-`set` instruction (`load` from the id array, or `add`) that is
+        never a gate operand (so this is not F10's shape) but stays live across carbon-carbon gates: it is
+        used before and after them by `init` / `meas` / `qalloc`+`qfree`. It is the lowest register the
+        other statements never touch, and every lower one is `set` first, i.e. it is exactly the register
+        a pass that forgot about it would borrow next."""
+        rng = self.rng
+        self.in_realloc = True
+        k = 2 if self.sdk_regs else 4
+        for j in range(k):
+            self.emit("core.SetInstruction", reg(Q, j), imm(rng.randrange(self.nq)))
+        qid = rng.randrange(1, self.nq)
+        if rng.random() < 0.6:
+            self.emit("core.SetInstruction", reg(R, 7), imm(qid))
+            self.emit("core.LoadInstruction", reg(Q, k), {"e": [0, R, 7]})
+            self.features.add("nonset-live:load")
+        else:
+            self.emit("core.SetInstruction", reg(R, 7), imm(qid - 1))
+            self.emit("core.AddInstruction", reg(Q, k), reg(R, 7), reg(R, 14))
+            self.features.add("nonset-live:add")
+        if rng.random() < 0.5:
+            self.emit("core.InitInstruction", reg(Q, k))
+
+        def cc():
+            a = rng.randrange(1, self.nq)
+            b = rng.choice([x for x in range(1, self.nq) if x != a])
+            qa = self.qreg()
+            qb = self.qreg(avoid=(qa,))
+            self.emit("core.SetInstruction", reg(Q, qa), imm(a))
+            self.emit("core.SetInstruction", reg(Q, qb), imm(b))
+            self.emit(rng.choice(["vanilla.CnotInstruction", "vanilla.CphaseInstruction"]), reg(Q, qa), reg(Q, qb))
+            self.features.add("cc")
+        cc()
+        for _ in range(rng.choice([0, 1])):
+            self.stmt(0)
+        if rng.random() < 0.4:
+            cc()
+        # uses of the register after the gates: never as a gate operand
+        use = rng.choice(["meas", "init-meas", "alloc-free"])
+        if use == "alloc-free":
+            self.emit("core.QAllocInstruction", reg(Q, k))
+            self.emit("core.InitInstruction", reg(Q, k))
+            self.emit("core.MeasInstruction", reg(Q, k), reg(M, rng.randrange(3)))
+            self.emit("core.QFreeInstruction", reg(Q, k))
+        else:
+            if use == "init-meas":
+                self.emit("core.InitInstruction", reg(Q, k))
+            self.emit("core.MeasInstruction", reg(Q, k), reg(M, rng.randrange(3)))
+        self.features.add("nonset-written-register-live-across-cc")
         self.in_realloc = False
 
     def gate_as_target(self, depth):
